@@ -133,6 +133,32 @@ def resolve(ctx, f, c):
     return cs[0] if len(cs) == 1 else None
 
 
+def resolve_mir(ctx, f, c):
+    """A method call the syntactic resolver cannot type (`x.m()` where m is a method of a workspace trait implemented for
+    several types): rustc's resolution of the call written at that source position names the impl."""
+    if c.get('recv') is None or c.get('line') is None:
+        return None
+    base = str(c.get('f') or '').split('::')[-1]
+    ix = getattr(ctx, '_inline_mir_ix', None)
+    if ix is None:
+        ix = {}
+        for cr in ctx.mirq()['crates'].values():
+            for b in cr['bodies']:
+                for mc in b.get('calls', []):
+                    if mc.get('local') and not mc.get('exp') and mc.get('ckey'):
+                        ix.setdefault((mc['file'], mc['line'], str(mc.get('declared') or '').split('::')[-1]), set()).add(mc['ckey'])
+        ctx._inline_mir_ix = ix
+        ctx._inline_mir_bodies = {b['key']: b for cr in ctx.mirq()['crates'].values() for b in cr['bodies']}
+    ks = ix.get((f['file'], c['line'], base), set())
+    if len(ks) != 1:
+        return None
+    b = ctx._inline_mir_bodies.get(next(iter(ks)))
+    if b is None:
+        return None
+    gs = [g for g in ctx.astq['functions'] if g['file'] == b['file'] and g['line'] == b['line'] and g['name'].split('::')[-1] == base]
+    return gs[0] if len(gs) == 1 else None
+
+
 def expandable(g, stop=()):
     nm = g['name'].split('::')[-1]
     if is_anchor(g) or nm in stop:
@@ -189,10 +215,10 @@ def _result(G):
             'ty': (tail or {}).get('ty') if isinstance(tail, dict) else None}
 
 
-def view(ctx, f, depth=3, stop=(), _stack=(), force=()):
+def view(ctx, f, depth=3, stop=(), _stack=(), force=(), mir=False):
     """Inlined view of f (see module doc).  Memoised per (function, stop)."""
     _index(ctx)
-    key = (f['file'], f['qual'], tuple(sorted(stop)), depth, tuple(sorted(force)))
+    key = (f['file'], f['qual'], f.get('line'), tuple(sorted(stop)), depth, tuple(sorted(force)), mir)
     memo = ctx._inline_memo
     if key in memo:
         return memo[key]
@@ -204,14 +230,16 @@ def view(ctx, f, depth=3, stop=(), _stack=(), force=()):
         subs = {}
 
         def sub_view(g):
-            k2 = g['qual']
+            k2 = (g['qual'], g.get('line'))
             if k2 not in subs:
-                subs[k2] = view(ctx, g, depth - 1, stop, _stack + (f['qual'],), force)
+                subs[k2] = view(ctx, g, depth - 1, stop, _stack + ((f['qual'], f.get('line')),), force, mir)
             return subs[k2]
 
         def can(c):
             g = resolve(ctx, f, c)
-            if g is None or not (expandable(g, stop) or g['name'].split('::')[-1] in force) or g['qual'] == f['qual'] or g['qual'] in _stack:
+            if g is None and mir:
+                g = resolve_mir(ctx, f, c)
+            if g is None or not (expandable(g, stop) or g['name'].split('::')[-1] in force) or (g['qual'], g.get('line')) == (f['qual'], f.get('line')) or (g['qual'], g.get('line')) in _stack:
                 return None
             return g
 
